@@ -2,7 +2,7 @@
 # confirm every seeded change that has no finished confirmation log yet, at most $1 (default 3) at a time
 par=${1:-3}
 cd /verif/seeded
-for d in */; do
+for d in C*/; do
   n=${d%/}
   grep -q "^tests:" /tmp/confirm_$n.log 2>/dev/null && continue
   echo $n
